@@ -35,7 +35,8 @@ CLASSES = {
     # a Logon asking for a sequence reset: an integrity defect is a defect all the same (34=1 with it is the legitimate reset: left out)
     "logonr": ("A", [(98, 0), (108, 30), (141, "Y")]),
 }
-DEFECTS = ["sender-missing", "target-missing", "sender-wrong", "target-wrong", "sender-case", "target-case", "swapped", "both-missing", "seq-missing", "seq-too-low", "seq-one",
+# ("seq-spelled-*": a MsgSeqNum that only Python's int() takes for the expected number - '+5', ' 5', '0_5': a missing / unusable MsgSeqNum)
+DEFECTS = ["seq-spelled-plus", "seq-spelled-blank", "seq-spelled-underscore", "sender-missing", "target-missing", "sender-wrong", "target-wrong", "sender-case", "target-case", "swapped", "both-missing", "seq-missing", "seq-too-low", "seq-one",
            "beginstring-42", "beginstring-fixt"]
 ORDERS = ["std", "seq-first", "ids-last"]
 
@@ -75,6 +76,12 @@ def all_cells():
             for rel in (0, 1):
                 for same_read in (False, True):
                     cells.append(("A-badlogon", role, st, missing, rel, same_read))
+    # A-reply: the acceptor cannot answer a well-formed Logon (the journal refuses the reply, the write fails): no Logon exchange has
+    # completed, so the application message behind it is not delivered either
+    for fault in ("journal-refuses", "drain-raises"):
+        for rel in (0, 1):
+            for same_read in (False, True):
+                cells.append(("A-logon-reply-fails", "acceptor", "nce", fault, rel, same_read))
     # A: sends
     for role in ("acceptor", "initiator"):
         for st in ("never", "nce", "logon_sent", "disconnected"):
@@ -100,6 +107,8 @@ def all_cells():
                     continue
                 for d in DEFECTS:
                     if cls == "logonr" and (d == "seq-one" or (d == "seq-too-low" and st == "prelogon")):
+                        continue
+                    if d.startswith("seq-spelled") and cls not in ("app", "hb", "logon", "tr"):
                         continue
                     for order in ORDERS:
                         if order != "std" and cls not in ("app", "logon", "hb"):
@@ -387,6 +396,19 @@ async def cell_A_badlogon(acc, clock, cell, cid):
     body = [(t, v) for t, v in ((98, 0), (108, 30)) if str(t) not in missing.split("+")]
     if missing.startswith("dup"):        # the field is there twice: just as unusable
         body = [(98, 0), (108, 30), (int(missing[3:]), 30 if missing == "dup108" else 0)]
+    if cell[0] == "A-logon-reply-fails":
+        body = [(98, 0), (108, 30)]
+        acc.add("logon_replies_that_could_not_be_sent")
+        if missing == "journal-refuses":
+            import sqlite3
+
+            def refusing_persist(*a, **k):
+                raise sqlite3.OperationalError("database or disk is full")
+            j.persist_msg = refusing_persist
+        else:
+            async def drain_hook():
+                raise BrokenPipeError("broken pipe")
+            ep.vf_writer.drain_hook = drain_hook
     logon = mkframe("A", s, "PEER", "ME", body)
     app = mkframe("D", s + rel, "PEER", "ME", [(11, "early"), (55, "X")])
     if same_read:
@@ -403,8 +425,8 @@ async def cell_A_badlogon(acc, clock, cell, cid):
     tag = f"{role}-{'awaiting-logon' if st == 'logon_sent' else 'before-logon'}"
     completed = any(e[0] == "logon" for e in ep.ev[o.ev:]) or any(e == ("state", "ACTIVE") for e in ep.ev[o.ev:])
     if n.rx != o.rx and not completed:
-        return acc.violation(f"{tag}:delivers-app-message:after-a-logon-that-could-not-be-processed",
-                             f"Logon without {missing} did not complete the exchange (state {n.state.name}), the application message behind it was handed to on_message", w, cid)
+        return acc.violation(f"{tag}:delivers-app-message:after-a-logon-that-could-not-be-" + ("answered" if cell[0] == "A-logon-reply-fails" else "processed"),
+                             f"Logon ({cell[0]}: {missing}) did not complete the exchange (state {n.state.name}), the application message behind it was handed to on_message", w, cid)
 
 
 async def cell_A_send(acc, clock, cell, cid):
@@ -543,6 +565,8 @@ def defect_frame(d, cls, s, E_, order, possdup=False):
         seq = None
     elif d == "seq-too-low":
         seq = E_ - 1
+    elif d.startswith("seq-spelled"):
+        seq = {"seq-spelled-plus": f"+{s}", "seq-spelled-blank": f" {s}", "seq-spelled-underscore": f"0_{s}"}[d]
     elif d == "seq-one":
         seq = 1
     elif d == "beginstring-42":
@@ -551,7 +575,7 @@ def defect_frame(d, cls, s, E_, order, possdup=False):
         bs = b"FIXT.1.1"
     if cls in ("gf", "rs") and d in ("seq-too-low", "seq-one"):
         return None      # SequenceReset below expectation: outside this property
-    mt, body = body_for(cls, seq if seq is not None else s)
+    mt, body = body_for(cls, seq if isinstance(seq, int) else s)
     return mkframe(mt, seq, sender, target, body, possdup, order, bs)
 
 
@@ -994,7 +1018,7 @@ def run_shard(spec, acc):
             try:
                 if cell[0] == "A-in":
                     await cell_A_in(acc, clock, cell, cid)
-                elif cell[0] == "A-badlogon":
+                elif cell[0] in ("A-badlogon", "A-logon-reply-fails"):
                     await cell_A_badlogon(acc, clock, cell, cid)
                 elif cell[0] == "A-send":
                     await cell_A_send(acc, clock, cell, cid)
